@@ -518,3 +518,283 @@ def rule_memokey1(ctx: Ctx) -> RuleResult:
     rr.instances += 1
     rr.ob("json_to_models", "<package>", f"{len(mods)} modules", st, DISCHARGED, "every memo key covers its value (positive control matched)", 1)
     return rr
+
+
+# ---------------------------------------------------------------------------------------------------------------
+def unpaired_acquires(tree: ast.AST) -> List[Tuple[ast.AST, str]]:
+    """`X.acquire()` as a statement whose matching `X.release()` is not in the `finally` of a try that starts right after it."""
+    out = []
+    for fn in ast.walk(tree):
+        if not isinstance(fn, (ast.FunctionDef, ast.AsyncFunctionDef)):
+            continue
+        for blk in ast.walk(fn):
+            for fld in ("body", "orelse", "finalbody"):
+                body = getattr(blk, fld, None)
+                if not isinstance(body, list):
+                    continue
+                for i, st in enumerate(body):
+                    if isinstance(st, ast.Expr) and isinstance(st.value, ast.Call) and isinstance(st.value.func, ast.Attribute) \
+                            and st.value.func.attr == "acquire":
+                        lock = norm(st.value.func.value)
+                        nxt = body[i + 1] if i + 1 < len(body) else None
+                        ok = isinstance(nxt, ast.Try) and any(
+                            isinstance(x, ast.Call) and isinstance(x.func, ast.Attribute) and x.func.attr == "release"
+                            and norm(x.func.value) == lock for s_ in nxt.finalbody for x in ast.walk(s_))
+                        if not ok:
+                            out.append((st, lock))
+    return out
+
+
+def rule_lock1(ctx: Ctx) -> RuleResult:
+    rr = RuleResult("LOCK-1", "every lock taken on a generation path is released on every way out", floor=1)
+    ctl = ast.parse("import threading\nL = threading.Lock()\ndef f():\n    L.acquire()\n    g()\n    L.release()\ndef h():\n    L.acquire()\n"
+                    "    try:\n        g()\n    finally:\n        L.release()\n")
+    if len(unpaired_acquires(ctl)) != 1:
+        raise AnalysisError("LOCK-1: positive control failed")
+    st = ("a lock is held through `with`, or acquire() is followed at once by try/finally with the release: otherwise one "
+          "generation that raises leaves the lock taken and every later generation, in any thread, blocks for ever")
+    n = 0
+    for m in ctx.prog.pkg_modules():
+        n += 1
+        for stmt, lock in unpaired_acquires(m.tree):
+            rr.instances += 1
+            fn = next((f for f in m.all_funcs if any(stmt is y for y in ast.walk(f.node))), None)
+            rr.ob(m.relpath, fn.qualname if fn else "<module>", norm(stmt)[:60], st, VIOLATED,
+                  f"`{lock}.acquire()` is not followed by try/finally releasing it: an exception between acquire and release keeps "
+                  f"`{lock}` locked", stmt.lineno)
+    rr.instances += 1
+    rr.ob("json_to_models", "<package>", f"{n} modules", st, DISCHARGED, "no unpaired acquire() (positive control matched)", 1)
+    return rr
+
+
+# ---------------------------------------------------------------------------------------------------------------
+ONE_SHOT_CALLS = ("map", "filter", "zip", "iter", "reversed", "enumerate", "itertools.chain", "glob", "iglob", "rglob")
+CONSUMERS = ("any", "all", "list", "tuple", "set", "sorted", "sum", "max", "min", "next", "len", "dict", "frozenset")
+
+
+def double_consumption(ctx: Ctx, f: FuncInfo) -> List[Tuple[str, ast.AST, ast.AST]]:
+    """(name, first use, second use): a local bound to a one-shot iterator (generator expression, map/filter/..., a call of a
+    repository function that can return a generator or a glob) that is consumed in two places."""
+    out = []
+    mod = f.module
+
+    def one_shot(v) -> bool:
+        if isinstance(v, ast.GeneratorExp):
+            return True
+        if isinstance(v, ast.Call):
+            fn = norm(v.func)
+            if fn in ONE_SHOT_CALLS or fn.split(".")[-1] in ("glob", "iglob", "rglob", "iterdir"):
+                return True
+            for t in ctx.cg.resolve_call(f, mod, v):
+                if isinstance(t, FuncInfo):
+                    if any(isinstance(x, (ast.Yield, ast.YieldFrom)) for x in walk_no_nested(t.node)):
+                        return True
+                    for r in walk_no_nested(t.node):
+                        if isinstance(r, ast.Return) and r.value is not None and isinstance(r.value, ast.Call) and \
+                                norm(r.value.func).split(".")[-1] in ("glob", "iglob", "rglob", "iterdir", "map", "filter"):
+                            return True
+        return False
+
+    for n in walk_no_nested(f.node):
+        if isinstance(n, ast.Assign) and len(n.targets) == 1 and isinstance(n.targets[0], ast.Name) and one_shot(n.value):
+            name = n.targets[0].id
+            # other definitions make it ambiguous: skip
+            defs = [d for d in walk_no_nested(f.node) if isinstance(d, (ast.Assign, ast.AugAssign)) and any(
+                isinstance(t, ast.Name) and t.id == name for t in (d.targets if isinstance(d, ast.Assign) else [d.target]))]
+            if len(defs) != 1:
+                continue
+            uses = []
+            for u in walk_no_nested(f.node):
+                if isinstance(u, ast.For) and isinstance(u.iter, ast.Name) and u.iter.id == name:
+                    uses.append(u)
+                elif isinstance(u, ast.comprehension) and isinstance(u.iter, ast.Name) and u.iter.id == name:
+                    uses.append(u)
+                elif isinstance(u, ast.Call) and (norm(u.func) in CONSUMERS or (isinstance(u.func, ast.Attribute) and u.func.attr in ("extend", "join", "update"))) \
+                        and any(isinstance(a, ast.Name) and a.id == name for a in u.args):
+                    uses.append(u)
+                elif isinstance(u, ast.Starred) and isinstance(u.value, ast.Name) and u.value.id == name:
+                    uses.append(u)
+            if len(uses) >= 2:
+                uses.sort(key=lambda x: getattr(x, "lineno", 0))
+                out.append((name, uses[0], uses[1]))
+    return out
+
+
+def rule_iter2(ctx: Ctx) -> RuleResult:
+    rr = RuleResult("ITER-2", "no one-shot iterator is consumed twice", floor=1)
+    st = ("an iterator (a generator, a glob, map / filter) gives its elements once: testing it with any() / list() / len() before "
+          "the loop that is meant to process it takes elements away from that loop")
+    n = 0
+    for f in sorted(set(ctx.lib_cone) | set(ctx.cli_cone), key=lambda x: x.key):
+        n += 1
+        for name, u1, u2 in double_consumption(ctx, f):
+            rr.instances += 1
+            rr.ob(f.relpath, f.qualname, norm(u1)[:60], st, VIOLATED,
+                  f"`{name}` holds a one-shot iterator and is consumed by `{norm(u1)[:40]}` (line {u1.lineno}) and again at line "
+                  f"{getattr(u2, 'lineno', '?')}: the second consumer misses what the first one took (the first matched file, for a "
+                  f"path pattern)", u1.lineno)
+    rr.instances += 1
+    rr.ob("json_to_models", "<package>", f"{n} functions", st, DISCHARGED, "no iterator is consumed twice", 1)
+    if n < 50:
+        raise AnalysisError(f"ITER-2: only {n} functions in scope")
+    return rr
+
+
+# ---------------------------------------------------------------------------------------------------------------
+def rule_tmp1(ctx: Ctx) -> RuleResult:
+    rr = RuleResult("TMP-1", "files written besides the requested output have names no concurrent run can share", floor=1)
+    run = ctx.prog.func(CLI, "Cli.run")
+    mod = run.module
+    st = ("the only file the command line writes is the one named by -o; an intermediate file, if any, gets its name from "
+          "tempfile (unique per call), not from the process id, a constant or the target's directory alone")
+    rr.instances += 1
+    bad = []
+    for f in sorted(ctx.cli_cone, key=lambda x: x.key):
+        if not f.relpath.endswith("cli.py"):
+            continue
+        for n in walk_no_nested(f.node):
+            if isinstance(n, ast.Call) and norm(n.func) in ("open", "io.open", "os.replace", "os.rename", "shutil.move") and n.args:
+                a0 = n.args[0]
+                mode = norm(n.args[1]) if len(n.args) > 1 else next((norm(k.value) for k in n.keywords if k.arg == "mode"), "'r'")
+                writes = norm(n.func) not in ("open", "io.open") or any(c in mode for c in "wax+")
+                if not writes:
+                    continue
+                txt = norm(a0)
+                if txt in ("self.output_file",):
+                    continue
+                # a local: where does it come from?
+                src = txt
+                if isinstance(a0, ast.Name):
+                    ds = [d for d in walk_no_nested(f.node) if isinstance(d, ast.Assign) and norm(d.targets[0]) == a0.id]
+                    src = " ; ".join(norm(d.value) for d in ds)
+                if "tempfile." in src or "mkstemp" in src or "NamedTemporaryFile" in src:
+                    continue
+                bad.append((f, n, src))
+    if bad:
+        f, n, src = bad[0]
+        rr.ob(f.relpath, f.qualname, norm(n)[:70], st, VIOLATED,
+              f"`{norm(n)[:50]}` writes / moves `{src[:60]}`: the name is the same for every run of this process (os.getpid(), a "
+              f"constant), so two runs in two threads overwrite each other's intermediate file", n.lineno)
+    else:
+        rr.ob(run.relpath, run.qualname, "open(self.output_file, 'w')", st, DISCHARGED, "only the requested output file is written", run.node.lineno)
+    return rr
+
+
+# ---------------------------------------------------------------------------------------------------------------
+LAZY_LOADERS = ("load_all", "safe_load_all", "iterparse", "iter_lines", "readline")
+
+
+def rule_load4(ctx: Ctx) -> RuleResult:
+    rr = RuleResult("LOAD-4", "every input loader parses the whole file", floor=2)
+    mod = ctx.prog.module(CLI)
+    loaders = ctx.prog.cls(CLI, "FileLoaders")
+    funcs = [f for ms in loaders.methods.values() for f in ms] + [f for f in mod.all_funcs if f.cls is None and f.parent is None
+                                                                    and ("load" in f.name or "yaml" in f.name)]
+    st = ("a loader returns only after the complete file has been parsed, so that malformed input anywhere in it fails the run: "
+          "a lazy multi-document API whose first result is taken stops reading at the first document")
+    for f in sorted(funcs, key=lambda x: x.key):
+        rr.instances += 1
+        lazy = [n for n in ast.walk(f.node) if isinstance(n, ast.Call) and isinstance(n.func, ast.Attribute) and n.func.attr in LAZY_LOADERS]
+        bad = None
+        for n in lazy:
+            # fully consumed? list(...), for-loop, tuple(...)
+            par = mod.parents.get(n)
+            drained = isinstance(par, ast.Call) and norm(par.func) in ("list", "tuple") or isinstance(par, ast.For) and par.iter is n
+            if not drained:
+                bad = n
+        rr.ob(f.relpath, f.qualname, norm(bad)[:60] if bad is not None else f.name, st, VIOLATED if bad is not None else DISCHARGED,
+              f"`{norm(bad)[:50]}` is lazy and is not drained: everything after the first document is never parsed, a broken second "
+              f"document passes" if bad is not None else "whole-stream loader", f.node.lineno)
+    return rr
+
+
+
+# ---------------------------------------------------------------------------------------------------------------
+def rule_cacheinv1(ctx: Ctx) -> RuleResult:
+    """CACHEINV-1: a lazily built view of an object's own collection is dropped by every method that changes the collection."""
+    rr = RuleResult("CACHEINV-1", "a cached view is invalidated by every mutator of what it was built from", floor=1)
+    prog = ctx.prog
+    n_caches = 0
+    for c in sorted(prog.all_classes(), key=lambda k: k.qualname):
+        inits = c.methods.get("__init__", [])
+        if not inits:
+            continue
+        none_attrs = {t.attr for n in walk_no_nested(inits[0].node) if isinstance(n, (ast.Assign, ast.AnnAssign)) and getattr(n, "value", None) is not None
+                      and isinstance(n.value, ast.Constant) and n.value.value is None
+                      for t in (n.targets if isinstance(n, ast.Assign) else [n.target])
+                      if isinstance(t, ast.Attribute) and isinstance(t.value, ast.Name) and t.value.id == "self"}
+        for ms in c.methods.values():
+            for f in ms:
+                for iff in walk_no_nested(f.node):
+                    if not (isinstance(iff, ast.If) and isinstance(iff.test, ast.Compare) and isinstance(iff.test.ops[0], ast.Is)
+                            and norm(iff.test.comparators[0]) == "None" and isinstance(iff.test.left, ast.Attribute)
+                            and norm(iff.test.left.value) == "self" and iff.test.left.attr in none_attrs):
+                        continue
+                    cache = iff.test.left.attr
+                    builds = [s_ for s_ in iff.body if isinstance(s_, ast.Assign) and norm(s_.targets[0]) == f"self.{cache}"]
+                    if not builds:
+                        continue
+                    sources = {x.attr for x in ast.walk(builds[0].value) if isinstance(x, ast.Attribute) and norm(x.value) == "self"
+                               and x.attr != cache}
+                    if not sources:
+                        continue
+                    n_caches += 1
+                    # every function of the class (nested helpers included) that changes a source resets the cache
+                    for g in [h for h in c.module.all_funcs if h.cls is c or (h.parent is not None and ctx.effects._owner(h) is c)]:
+                        if g.name == "__init__" or g is f:
+                            continue
+                        muts = []
+                        for x in walk_no_nested(g.node):
+                            if isinstance(x, ast.Call) and isinstance(x.func, ast.Attribute) and x.func.attr in MUTATORS and \
+                                    isinstance(x.func.value, ast.Attribute) and norm(x.func.value.value) == "self" and x.func.value.attr in sources:
+                                muts.append(x)
+                            if isinstance(x, (ast.Assign, ast.AugAssign)):
+                                for t in (x.targets if isinstance(x, ast.Assign) else [x.target]):
+                                    if isinstance(t, ast.Attribute) and norm(t.value) == "self" and t.attr in sources:
+                                        muts.append(x)
+                        if not muts:
+                            continue
+                        rr.instances += 1
+                        top = g
+                        while top.parent is not None:
+                            top = top.parent
+                        resets = any(isinstance(x, ast.Assign) and norm(x.targets[0]) == f"self.{cache}" and norm(x.value) == "None"
+                                     for h in (g, top) for x in ast.walk(h.node))
+                        rr.ob(g.relpath, g.qualname, norm(muts[0])[:60], f"`self.{cache}` of {c.name} is a view of {sorted(sources)}: a "
+                              f"method that changes them drops the view, so that the next question is answered from the new content",
+                              DISCHARGED if resets else VIOLATED,
+                              "view dropped" if resets else
+                              f"`{norm(muts[0])[:40]}` changes the source but `self.{cache}` is kept: later lookups answer from the old "
+                              f"content (a type registered afterwards is detected but is not `in` the registry)", muts[0].lineno)
+    rr.instances += 1
+    rr.ob("json_to_models", "<package>", "lazily built views", "cached views are invalidated", DISCHARGED,
+          f"{n_caches} lazily built view(s) found", 1)
+    return rr
+
+
+
+# ---------------------------------------------------------------------------------------------------------------
+def rule_gencall1(ctx: Ctx) -> RuleResult:
+    """GENCALL-1: a generator function is never called for its side effects (the body of an un-iterated generator does not run)."""
+    rr = RuleResult("GENCALL-1", "no generator function is called without being iterated", floor=1)
+    st = ("calling a function that contains `yield` only creates a generator object: as a statement on its own the call does "
+          "nothing, so a recursion written as `walk(children)` inside a generator silently skips the children (`yield from` is "
+          "missing)")
+    n_gen = 0
+    for f in sorted(ctx.prog.all_funcs(), key=lambda x: x.key):
+        for n in walk_no_nested(f.node):
+            if isinstance(n, ast.Expr) and isinstance(n.value, ast.Call):
+                tg = [t for t in ctx.cg.resolve_call(f, f.module, n.value) if isinstance(t, FuncInfo)]
+                if tg and all(any(isinstance(x, (ast.Yield, ast.YieldFrom)) for x in walk_no_nested(t.node)) for t in tg):
+                    rr.instances += 1
+                    rr.ob(f.relpath, f.qualname, norm(n)[:70], st, VIOLATED,
+                          f"`{norm(n.value)[:50]}` calls the generator function {tg[0].qualname} and drops the result: nothing of its body "
+                          f"runs (nested levels are skipped)", n.lineno)
+    for f in ctx.prog.all_funcs():
+        if any(isinstance(x, (ast.Yield, ast.YieldFrom)) for x in walk_no_nested(f.node)):
+            n_gen += 1
+    rr.instances += 1
+    rr.ob("json_to_models", "<package>", f"{n_gen} generator functions", st, DISCHARGED, "every call of a generator function is consumed", 1)
+    if n_gen < 3:
+        raise AnalysisError(f"GENCALL-1: only {n_gen} generator functions found in the package")
+    return rr
